@@ -6,6 +6,7 @@
 //! Expected *renderings* of values are obtained differentially: the expected value is bound to a
 //! context variable and rendered with `{{ x }}` (value display is C15/C16's business, not ours).
 
+use crate::c16refs;
 use mccore::engine::{self, Out};
 use mccore::numref::{Num, cmp_exact, num_of};
 use mccore::pyoracle::PyOracle;
@@ -1102,6 +1103,13 @@ pub fn contract(env: &Env, name: &str, is_test: bool, recv: &V, args: &[Option<V
         }
         "sort" | "unique" => match recv {
             V::Arr(a) if a.len() <= 1 && args.iter().all(|x| x.is_none()) => want_value(env, out, recv, err_ok, sig),
+            // plain `sort`: two elements (none aside) that are not mutually comparable, wherever they
+            // stand in the input, must be refused (the order of what is accepted is C16's)
+            V::Arr(a) if name == "sort" && args.iter().all(|x| x.is_none()) => {
+                let els: Vec<&V> = a.iter().filter(|e| **e != V::None).collect();
+                let incomparable = (0..els.len()).any(|i| (i + 1..els.len()).any(|j| c16refs::ref_pcmp(els[i], els[j]).is_none()));
+                if incomparable { want_err(out, sig, "two elements are not mutually comparable") } else { Skip }
+            }
             _ => Skip, // C16
         },
         "get" => {
